@@ -524,6 +524,14 @@ func safely(f func()) (kind string, text string) {
 	return "", ""
 }
 
+func oneLine(s string) string {
+	s = strings.Replace(strings.Replace(s, "\n", " ", -1), "\t", " ", -1)
+	if len(s) > 400 {
+		s = s[:400]
+	}
+	return strings.ToValidUTF8(s, "?")
+}
+
 func hasNaN(t *gty, v reflect.Value) bool {
 	switch t.kind {
 	case "float":
@@ -638,13 +646,13 @@ func refl(c px.Context, t *gty, ve sx.Sexp, register bool) core.Result {
 			if r := notReflectable(t); r != "" {
 				return core.Result{Out: "register=" + k, Pred: "n/a", NonTrivial: true}
 			}
-			return core.Fail("register="+k, "struct-type-fault", text)
+			return core.Fail("register="+k, "struct-type-fault", oneLine(text))
 		}
 	}
 	tags := []string{"k:" + t.kind}
 	nt := t.hasCtor() || !gv.IsZero()
 	res := func(out, pred string) core.Result {
-		return core.Result{Out: out, Pred: pred, NonTrivial: nt, Tags: tags}
+		return core.Result{Out: out, Pred: oneLine(pred), NonTrivial: nt, Tags: tags}
 	}
 
 	// Go → Value
@@ -987,7 +995,106 @@ func instCause(t *gty, v reflect.Value, viaWrap bool, underPtr bool) string {
 // ---- @obj: structs through a derived object type (implementation only) ------------------------------------------------
 
 func obj(c px.Context, t *gty, ve sx.Sexp) core.Result {
-	return core.Result{Out: "todo", Pred: "n/a"}
+	if t.kind != "struct" {
+		return core.Result{Out: "bad-op", Pred: "FAIL harness-bad-op obj needs a struct type"}
+	}
+	gv := build(t, ve)
+	rt := t.rtype()
+	tags := []string{"k:obj"}
+	res := func(out, pred string) core.Result { return core.Result{Out: out, Pred: oneLine(pred), NonTrivial: true, Tags: tags} }
+	seen := map[reflect.Type]px.ObjectType{}
+	if k, text := safely(func() { registerStructs(c, t, seen) }); k != "" {
+		if r := notReflectable(t); r != "" {
+			return res("register="+k, "n/a")
+		}
+		return res("register="+k, "FAIL struct-type-fault "+text)
+	}
+	ot := seen[rt]
+	// struct → object → init hash
+	var ih px.OrderedMap
+	if k, text := safely(func() { ih = px.Wrap(c, gv.Interface()).(px.PuppetObject).InitHash() }); k != "" {
+		return res("inithash="+k, "FAIL fault InitHash: "+text)
+	}
+	out := encVal(ih)
+	// the derived object type constructs an instance — from positional arguments and, unless a single Hash argument
+	// is ambiguous (the first attribute itself accepts the init hash: the positional dispatch wins), from the init hash —
+	// that converts back to an equal struct
+	var pos []px.Value
+	var wrapped px.PuppetObject
+	if k, text := safely(func() {
+		wrapped = px.Wrap(c, gv.Interface()).(px.PuppetObject)
+		for _, a := range ot.AttributesInfo().Attributes() {
+			pos = append(pos, a.Get(wrapped))
+		}
+	}); k != "" {
+		return res(out+" | attrs="+k, "FAIL fault attribute values: "+text)
+	}
+	// A single Hash argument is ambiguous by design of the object constructor (the named-argument dispatch comes first,
+	// the positional one second): the positional form is skipped when its only argument is a Hash, the named form
+	// when the first attribute itself accepts the init hash.
+	variants := [][]px.Value{}
+	names := []string{}
+	if _, isHash := pos0(pos).(*types.Hash); !(len(pos) == 1 && isHash) {
+		variants = append(variants, pos)
+		names = append(names, "pos")
+	} else {
+		tags = append(tags, "pos-ambiguous")
+	}
+	attrs := ot.AttributesInfo().Attributes()
+	if len(attrs) == 0 || !px.IsInstance(attrs[0].Type(), ih) {
+		variants = append(variants, []px.Value{ih})
+		names = append(names, "named")
+	} else {
+		tags = append(tags, "named-ambiguous")
+	}
+	na := notReflectable(t) != "" || hasNaN(t, gv)
+	pred := "ok"
+	for vi, args := range variants {
+		var o2 px.Value
+		nk, ntext := safely(func() { o2 = px.New(c, ot, args...) })
+		if nk != "" {
+			out += " | " + names[vi] + "=" + nk
+			if pred == "ok" {
+				pred = "FAIL obj-new-fault New: " + ntext
+				for i, f := range t.fields {
+					if cl := instCause(f.t, gv.Field(i), false, false); cl != "" {
+						pred = "FAIL " + cl + " New: " + ntext
+						break
+					}
+				}
+			}
+			continue
+		}
+		back := reflect.New(rt).Elem()
+		bk, btext := safely(func() { c.Reflector().ReflectTo(o2, back) })
+		if bk != "" {
+			out += " | " + names[vi] + "=ok back=" + bk + " eq=f"
+			if pred == "ok" {
+				pred = "FAIL " + backFaultClass(t, gv, btext) + " ReflectTo: " + btext
+			}
+			continue
+		}
+		eq := reflect.DeepEqual(gv.Interface(), back.Interface())
+		out += " | " + names[vi] + "=ok back=" + encGo(t, back) + " eq=" + sx.B(eq)
+		if !eq && pred == "ok" {
+			cl := diffClass(t, gv, back)
+			if cl == "" {
+				cl = "roundtrip-differs"
+			}
+			pred = "FAIL " + cl + " " + encGo(t, gv) + " came back as " + encGo(t, back)
+		}
+	}
+	if na {
+		return res(out, "n/a")
+	}
+	return res(out, pred)
+}
+
+func pos0(vs []px.Value) px.Value {
+	if len(vs) == 0 {
+		return px.Undef
+	}
+	return vs[0]
 }
 
 // ---- generator ---------------------------------------------------------------------------------------------
@@ -1234,6 +1341,9 @@ func gen(g *core.G) {
 		if t.has("struct") {
 			// structs are not modelled yet: implementation-only test ops
 			g.Emit("@refl " + t.sexp().String() + " " + v)
+			if t.kind == "struct" {
+				g.Emit("@obj " + t.sexp().String() + " " + v)
+			}
 			if nraw++; nraw%10 == 0 {
 				g.Emit("@reflraw " + t.sexp().String() + " " + v)
 			}
@@ -1311,5 +1421,18 @@ func gen(g *core.G) {
 	for i := 0; i < nTypes; i++ {
 		t := randType(g.Rng, 1+g.Rng.Intn(depth), i%5 == 4)
 		emitVals(t, 17)
+	}
+	// 3. structs at the top (tagged names on some fields, nested structs, pointers to structs): implementation-only
+	for i := 0; i < nTypes/5; i++ {
+		t := &gty{kind: "struct"}
+		n := 1 + g.Rng.Intn(4)
+		for j := 0; j < n; j++ {
+			f := gfield{name: string(rune('A' + j)), t: randType(g.Rng, g.Rng.Intn(depth), j == 1)}
+			if g.Rng.Intn(4) == 0 {
+				f.tag = "puppet:\"name=>'f_" + strings.ToLower(f.name) + "'\""
+			}
+			t.fields = append(t.fields, f)
+		}
+		emitVals(t, 7)
 	}
 }
